@@ -121,6 +121,13 @@ structure Cfg extends Flags where
   raw : String → List Nat := fun _ => []
   /-- `get_originated_address(0)`: what `ContractType.from_python_object(None)` stands for -/
   originated0 : String := ""
+  /-- the `try_unpack` argument of `to_python_object` (the round trip is about the default, `False`) -/
+  tryUnpack : Bool := false
+  /-- `base58_encode(payload, prefix).decode()`; `blind_unpack` only calls it with a payload of the prefix's length -/
+  b58 : String → List Nat → String := fun _ _ => ""
+  /-- `micheline_value_to_python_object(unforge_micheline(data))` of `blind_unpack` (`none`: it raises one of the
+  suppressed exceptions) — C05's reader, C18's formatter and `blind_unpack` again on the bytes inside -/
+  unpackMich : List Nat → Option PyObj := fun _ => none
 
 /-- the mirror below follows the repaired name generator of `get_type_layout` (generated names made different from
 every declared one): with the old shape (`generatedNamesFresh = some false`) or an unknown one there is no
@@ -492,6 +499,92 @@ def mapE {α β : Type} (f : α → Except Err β) : List α → Except Err (Lis
     let ys ← mapE f xs
     .ok (y :: ys)
 
+/-! ### `blind_unpack` (michelson/micheline.py): what `BytesType.to_python_object(try_unpack=True)` shows
+
+The decision is mirrored in full: which of the seven readings applies depends on the length and the first / last bytes
+only (`base58_encode` raises ValueError exactly when the payload does not have the length of the prefix; the dict
+lookups of `unforge_address` / `unforge_public_key` raise KeyError on an unknown tag).  The texts themselves
+(`c.b58`), and the content of PACKed data (`c.unpackMich`) are parameters. -/
+
+/-- `bytes.decode()` (strict UTF-8: no overlong forms, no surrogates, nothing above U+10FFFF) -/
+def utf8Decode : List Nat → Option (List Char)
+  | [] => some []
+  | b0 :: rest =>
+    if b0 < 0x80 then (utf8Decode rest).map fun cs => Char.ofNat b0 :: cs
+    else if 0xC2 ≤ b0 && b0 < 0xE0 then
+      match rest with
+      | b1 :: rest' =>
+        if 0x80 ≤ b1 && b1 < 0xC0 then (utf8Decode rest').map fun cs => Char.ofNat ((b0 - 0xC0) * 64 + (b1 - 0x80)) :: cs
+        else none
+      | _ => none
+    else if 0xE0 ≤ b0 && b0 < 0xF0 then
+      match rest with
+      | b1 :: b2 :: rest' =>
+        let cp := (b0 - 0xE0) * 4096 + (b1 - 0x80) * 64 + (b2 - 0x80)
+        if 0x80 ≤ b1 && b1 < 0xC0 && 0x80 ≤ b2 && b2 < 0xC0 && 0x800 ≤ cp && !(0xD800 ≤ cp && cp < 0xE000) then
+          (utf8Decode rest').map fun cs => Char.ofNat cp :: cs
+        else none
+      | _ => none
+    else if 0xF0 ≤ b0 && b0 < 0xF5 then
+      match rest with
+      | b1 :: b2 :: b3 :: rest' =>
+        let cp := (b0 - 0xF0) * 262144 + (b1 - 0x80) * 4096 + (b2 - 0x80) * 64 + (b3 - 0x80)
+        if 0x80 ≤ b1 && b1 < 0xC0 && 0x80 ≤ b2 && b2 < 0xC0 && 0x80 ≤ b3 && b3 < 0xC0 && 0x10000 ≤ cp && cp < 0x110000 then
+          (utf8Decode rest').map fun cs => Char.ofNat cp :: cs
+        else none
+      | _ => none
+    else none
+
+/-- `unforge_address(data)` as `blind_unpack` sees it: `some (prefix, payload)` when it returns
+`base58_encode(payload, prefix)`, `none` when it raises ValueError (length) or KeyError (unknown tag) -/
+def unforgeAddressPlan (d : List Nat) : Option (String × List Nat) :=
+  let tz (t : Nat) : Option String :=
+    match t with | 0 => some "tz1" | 1 => some "tz2" | 2 => some "tz3" | 3 => some "tz4" | _ => none
+  let fits (pl : List Nat) (r : String) : Option (String × List Nat) := if pl.length = 20 then some (r, pl) else none
+  if d.length = 21 then
+    match d with
+    | t :: pl => (tz t).bind (fits pl)
+    | [] => none
+  else
+    match d with
+    | 0 :: t :: pl =>
+      match tz t with
+      | some r => fits pl r                               -- the first matching two-byte prefix decides
+      | none => none                                      -- `tz_prefixes[b'\x00\x00']` then a 20-byte check on `data[1:]`: not 21 long
+    | 1 :: pl => if pl.getLast? = some 0 then fits pl.dropLast "KT1" else none
+    | 2 :: pl => if pl.getLast? = some 0 then fits pl.dropLast "txr1" else none
+    | 3 :: pl => if pl.getLast? = some 0 then fits pl.dropLast "sr1" else none
+    | _ => none
+
+/-- `unforge_public_key(data)`: tag byte, then a payload of the curve's length -/
+def unforgeKeyPlan (d : List Nat) : Option (String × List Nat) :=
+  match d with
+  | 0 :: pl => if pl.length = 32 then some ("edpk", pl) else none
+  | 1 :: pl => if pl.length = 33 then some ("sppk", pl) else none
+  | 2 :: pl => if pl.length = 33 then some ("p2pk", pl) else none
+  | 3 :: pl => if pl.length = 48 then some ("BLpk", pl) else none
+  | _ => none
+
+/-- `blind_unpack(data)` -/
+def blindUnpack (c : Cfg) (d : List Nat) : PyObj :=
+  if d.length = 4 then .str (c.b58 "Net" d)                                   -- unforge_chain_id
+  else match unforgeAddressPlan d with
+  | some (r, pl) => .str (c.b58 r pl)
+  | none => match unforgeKeyPlan d with
+  | some (r, pl) => .str (c.b58 r pl)
+  | none =>
+    if d.length = 96 then .str (c.b58 "BLsig" d)                              -- unforge_signature
+    else if d.length = 64 then .str (c.b58 "sig" d)
+    else
+      let packed : Option PyObj := match d with
+        | 5 :: body => c.unpackMich body
+        | _ => none
+      match packed with
+      | some o => o
+      | none => match utf8Decode d with
+        | some cs => .str (String.ofList cs)
+        | none => .bytes d
+
 /-! ### `to_python_object` -/
 
 /-- the classes whose `to_python_object` starts with `assert not comparable` -/
@@ -499,14 +592,15 @@ def Scalar.assertsNotComparable : Scalar → Bool
   | .blsFr | .blsG1 | .blsG2 => true
   | _ => false
 
-/-- `to_python_object(comparable=cmp)` of a leaf: the stored `value` (`Unit` for unit) -/
-def scalarToPy (cmp : Bool) : Scalar → Val → Except Err PyObj
+/-- `to_python_object(try_unpack=c.tryUnpack, comparable=cmp)` of a leaf: the stored `value` (`Unit` for unit); only
+`BytesType` itself looks at `try_unpack` (the bls12_381 points call `super().to_python_object()` without it) -/
+def scalarToPy (c : Cfg) (cmp : Bool) : Scalar → Val → Except Err PyObj
   | .unit, .unit => .ok .unit
   | .bool, .bool b => .ok (.bool b)
   | .nat, .int n | .int, .int n | .mutez, .int n | .timestamp, .int n => .ok (.int n)
   | .string, .str s | .address, .str s | .keyHash, .str s | .key, .str s | .signature, .str s | .chainId, .str s =>
     .ok (.str s)
-  | .bytes, .bytes b => .ok (.bytes b)
+  | .bytes, .bytes b => .ok (if c.tryUnpack then blindUnpack c b else .bytes b)
   | .blsFr, .int n => if cmp then .error .assertion else .ok (.int n)
   | .blsG1, .bytes b | .blsG2, .bytes b => if cmp then .error .assertion else .ok (.bytes b)
   | _, _ => .error .assertion
@@ -529,7 +623,7 @@ def dictOf (c : Cfg) : List (PyObj × PyObj) → List (PyObj × PyObj) → Excep
 mutual
   /-- `to_python_object(comparable=cmp, lazy_diff=None)` -/
   def toPy (c : Cfg) (cmp : Bool) : Ty → Val → Except Err PyObj
-    | .scalar _ s, v => scalarToPy cmp s v
+    | .scalar _ s, v => scalarToPy c cmp s v
     | .contract _ _, .str s => if cmp then .error .assertion else .ok (.str s)
     | .contract .., _ => .error .assertion
     | .pair a l r, .pair x y => do
